@@ -797,6 +797,8 @@ def run(ctx):
         triples = special_triples(cfg)
         if ctx.quick:
             triples = [triples[rng.randrange(len(triples))]]
+        else:
+            triples = rng.sample(triples, min(2, len(triples)))
         slow = cfg['kind'] in SQL_KINDS
         for tr in triples:
             if cfg['kind'] == 'file' and cfg['layout'] not in NO_DIM_LAYOUTS and rng.random() < 0.5:
@@ -814,7 +816,7 @@ def run(ctx):
             else:
                 alpha = exhaustive_alphabet(tr, p, q)
             hists = list(itertools.product(alpha, repeat=ex_len))
-            cap = ctx.n(90 if slow else 180, 2500 if slow else 7000)
+            cap = ctx.n(90 if slow else 180, 800 if slow else 2000)
             if len(hists) > cap:
                 hists = rng.sample(hists, cap)
             # a sample of longer ones
@@ -862,7 +864,7 @@ def run(ctx):
             'implementation_outputs': outs if len(outs) <= 40 else ['...']})
     checker = "fun c => let '(b, ops, outs) := c in outs_eqb (model_outs b ops) outs"
     ctx.corr_check('histories', IMPORTS, 'backend * list op * list out', terms, checker,
-                   lambda i: descr[i], shard=max(1, len(terms) // 32 + 1), defs=DEFS)
+                   lambda i: descr[i], shard=min(12, max(1, len(terms) // 32 + 1)), defs=DEFS)
     ctx.corr_check('bulk_load_batches', IMPORTS, 'backend * list op * list out', bterms, checker,
                    lambda i: bdescr[i], shard=1, defs=DEFS)
 
